@@ -107,6 +107,8 @@ class Contract:
         self.defs = dict(kw.pop("defs", {}))  # spec macros: name -> "lambda x: ..."
         self.snapshots = dict(kw.pop("snapshots", {}))  # label -> callee simple name (heap snapshot after its first call)
         self.variant = kw.pop("variant", None)  # termination measure for recursive calls
+        self.ensures_locals = _named(kw.pop("ensures_locals", {}), "lpost")  # postconditions that may mention final locals
+        self.axioms = dict(kw.pop("axioms", {}))  # assumed facts (each listed in the evidence as trusted)
         self.emits = kw.pop("emits", None)  # frame for effect events: names this function may emit (None: unspecified)
         self.asserts = list(kw.pop("asserts", []))  # [dict(before=<source prefix>, clause=..., label=...)]
         self.ghost_inputs = dict(kw.pop("ghost_inputs", {}))
